@@ -763,12 +763,12 @@ func (x *Exec) typeAssert(fr *Frame, st *State, ins *ssa.TypeAssert) error {
 	var ok Term
 	if _, isIface := at.Underlying().(*types.Interface); isIface {
 		// conversion to another interface: succeeds iff non-nil (method set satisfaction abstracted)
-		x.C.Note("interface-to-interface assertion assumes method sets are satisfied when non-nil")
 		ok = Not(Eq(App(SRef, "if-typ", v.T), BVInt(0, 32)))
 		if it := at.Underlying().(*types.Interface); it.NumMethods() > 0 {
 			if _, fromIface := ins.X.Type().Underlying().(*types.Interface); fromIface && !types.Implements(ins.X.Type(), it) {
 				// the static type does not guarantee the method set: decided by the dynamic type
 				ok = And(ok, x.C.Implements(App(SRef, "if-typ", v.T), at))
+				x.C.Note("interface-to-interface assertion decided by the dynamic type: exact for the concrete types met in this run, unconstrained for an unknown dynamic type")
 			}
 		}
 	} else {
